@@ -138,7 +138,8 @@ def normalize_index(idx, shape):
     n_sliced_dims = 0
     for i in idx:
         if hasattr(i, "ndim") and i.ndim >= 1:
-            n_sliced_dims += i.ndim
+            # a boolean mask consumes one axis per dimension, an integer index array always exactly one
+            n_sliced_dims += i.ndim if getattr(i, "dtype", None) == bool else 1
         elif i is None:
             continue
         else:
